@@ -27,7 +27,7 @@ TAGS = {"C07"}
 
 def cfg(tier):
     q = tier != "thorough"
-    return ["SPECIFICATION Spec", "CONSTANTS", f" Classes <- {'ClsQ' if q else 'ClsAll'}", " Relations <- RelAll", f" Names <- {'NmQ' if q else 'NmAll'}",
+    return ["SPECIFICATION Spec", "CONSTANTS", f" Classes <- {'ClsQ' if q else 'ClsAll'}", " Relations <- RelAll", f" Names <- {'NmQ' if q else 'NmAll'}", " Options <- OptAll",
             "INVARIANT C07_LayoutInvariant", "INVARIANT Emit", "CHECK_DEADLOCK FALSE"]
 
 
@@ -165,14 +165,14 @@ def build(cls, sn, fn):
     raise common.MachineryError(cls)
 
 
-def run(cls, kind, mk, X, Y, dim="time"):
+def run(cls, kind, mk, X, Y, dim="time", wts=None):
     with warnings.catch_warnings():
         warnings.simplefilter("ignore")
         m = mk()
         if kind == "single":
-            m.fit(X, dim)
+            m.fit(X, dim, **({} if wts is None else dict(weights=wts[0])))
         elif kind == "cross":
-            m.fit(X, Y, dim)
+            m.fit(X, Y, dim, **({} if wts is None else dict(weights_X=wts[0], weights_Y=wts[1])))
         else:
             m.fit([X, Y], dim)
         obj = m
@@ -222,8 +222,14 @@ def evaluate(i, scn):
     if kind == "multi" and rel in ("split_vars", "split_list", "shuffle_list_samples", "permute_samples"):
         return dict(found=[], count={"not_applicable": 1})
     dim = "time"
-    if rel in ("transpose2d", "list_swap_sample_dims") and kind != "single":
+    if rel in ("transpose2d", "list_swap_sample_dims", "two_sample_dims_permuted") and kind != "single":
         return dict(found=[], count={"not_applicable": 1})
+    wts = None
+    if c.get("opt") == "weighted":
+        # one labelled weights array per field, the same object for both presentations
+        wr = np.random.default_rng(77)
+        wts = (xr.DataArray(wr.uniform(0.3, 2.0, size=(3, 4)), dims=("y", "x"), coords=dict(y=X.y.values, x=X.x.values)),
+               xr.DataArray(wr.uniform(0.3, 2.0, size=6), dims=("z",), coords=dict(z=Y.z.values)))
     if rel == "transpose2d":
         # a plain matrix stored feature x sample
         X = X.stack(f=("y", "x")).reset_index("f", drop=True).assign_coords(f=np.arange(12) * 1.0)
@@ -238,14 +244,22 @@ def evaluate(i, scn):
         a_, b_ = Z.isel(x=slice(0, 2)), Z.isel(x=slice(2, None))
         X, X2, Y2 = [a_, b_], [a_, b_.transpose("member", "time", "y", "x")], Y
         dim = ["time", "member"]
+    elif rel == "two_sample_dims_permuted":
+        # two sample dimensions whose coordinates are stored in another (not ascending) order: every score belongs to
+        # its (time, member) label pair
+        n2 = X.sizes["time"] // 2
+        Z = xr.DataArray(np.asarray(X.isel(time=slice(0, 2 * n2)).values).reshape(n2, 2, 3, 4), dims=("time", "member", "y", "x"),
+                         coords=dict(time=np.arange(n2) * 10, member=[1, 12], y=X.y.values, x=X.x.values), name="fld")
+        X, X2, Y2 = Z, Z.isel(time=rng.permutation(n2), member=[1, 0]), Y
+        dim = ["time", "member"]
     elif rel == "permute_samples":
         perm = rng.permutation(X.sizes["time"])
         X2, Y2 = X.isel(time=perm), Y.isel(time=perm)
     else:
         X2, Y2 = present(X, rel, rng), Y
-    v1, c1, s1 = run(cls, kind, mk0, X, Y, dim)
-    v2, c2, s2 = run(cls, kind, mk1, X2, Y2, dim)
-    tag = f"{cls} [{rel}, names={c['names']}]"
+    v1, c1, s1 = run(cls, kind, mk0, X, Y, dim, wts)
+    v2, c2, s2 = run(cls, kind, mk1, X2, Y2, dim, wts)
+    tag = f"{cls} [{rel}, names={c['names']}{', weighted' if wts is not None else ''}]"
     scale = max(np.abs(v1).max(), 1e-300)
     ck.m(v1.shape == v2.shape and np.abs(np.sort_complex(v1.ravel()) - np.sort_complex(v2.ravel())).max() <= 1e-7 * scale, "C07", "C07_LayoutInvariant",
          f"{tag}: singular values / spectra differ: {np.round(v1, 8).tolist()} vs {np.round(v2, 8).tolist()}")
